@@ -57,6 +57,8 @@ FUN = {
  'three_point': lambda Q, **k: dasch.three_point_transform(Q, basis_dir=None, **k),
  'linbasex': lambda Q, **k: linbasex.linbasex_transform_full(Q, basis_dir=None, **k)[0],
  'rbasex': lambda Q, **k: rbasex.rbasex_transform(Q, **k)[0],
+ # the single-quadrant front end of linbasex (a public entry point of its own)
+ 'linbasex_quadrant': lambda Q, **k: linbasex.linbasex_transform(Q, basis_dir=None, **k),
 }
 TOPT = {'basex': dict(verbose=False, basis_dir=None), 'daun': dict(verbose=False, basis_dir=None),
         'onion_peeling': dict(basis_dir=None), 'two_point': dict(basis_dir=None),
@@ -252,6 +254,11 @@ def cells():
                 for sh, o in combos:
                     out.append(('%s/%s/%s/%s/%s' % (via, m, d, sh, o), rq(via, m, d, sh, o),
                                 cell_expr(via, m, d, sh, o)))
+    # further public entry points that take a direction (no model counterpart: the
+    # expected outcome is that of the method they front)
+    for d in DIRS:
+        out.append(('wrap/linbasex_quadrant/%s/Fine/NoOpt' % d, None,
+                    "outcome(lambda: call_fn('linbasex_quadrant', HALF, direction=%r), HALF, 'linbasex')" % d))
     # image tools called directly with unknown names (must raise; search only)
     def multi(vals, tmpl):
         return "outcome_all([%s], IM)" % ', '.join("(%r, lambda: %s)" % (v, tmpl % v) for v in vals)
@@ -277,6 +284,8 @@ def expected(cid):
     via, m, d, sh, o = cid.split('/')
     if via == 'tools':
         return {'raise'}
+    if via == 'wrap':
+        return {'inverse'} if d == 'inverse' else {'raise'}
     if d == 'sideways' or (d == 'forward' and m not in IMPLEMENTED_FWD):
         return {'raise'}
     if sh != 'Fine':
